@@ -769,7 +769,8 @@ def make_rm_reg64(mnemonic, opcode, read_op1=True, write_op1=True):
     reg = Operand("reg", Register64, read=True)
     syntax = Syntax([mnemonic, " ", rm, ",", " ", reg], priority=0)
     members = {"syntax": syntax, "rm": rm, "reg": reg, "opcode": opcode}
-    return type(mnemonic + "_ins", (rmregbase64,), members)
+    bases = (ModifiesRm, rmregbase64) if write_op1 else (rmregbase64,)
+    return type(mnemonic + "_ins", bases, members)
 
 
 def make_rm_reg32(mnemonic, opcode, read_op1=True, write_op1=True):
@@ -778,7 +779,8 @@ def make_rm_reg32(mnemonic, opcode, read_op1=True, write_op1=True):
     reg = Operand("reg", Register32, read=True)
     syntax = Syntax([mnemonic, " ", rm, ",", " ", reg], priority=0)
     members = {"syntax": syntax, "rm": rm, "reg": reg, "opcode": opcode}
-    return type(mnemonic + "_ins", (rmregbase32,), members)
+    bases = (ModifiesRm, rmregbase32) if write_op1 else (rmregbase32,)
+    return type(mnemonic + "_ins", bases, members)
 
 
 def make_rm_reg16(mnemonic, opcode, read_op1=True, write_op1=True):
@@ -787,7 +789,8 @@ def make_rm_reg16(mnemonic, opcode, read_op1=True, write_op1=True):
     reg = Operand("reg", Register16, read=True)
     syntax = Syntax([mnemonic, " ", rm, ",", " ", reg], priority=0)
     members = {"syntax": syntax, "rm": rm, "reg": reg, "opcode": opcode}
-    return type(mnemonic + "_ins", (rmregbase16,), members)
+    bases = (ModifiesRm, rmregbase16) if write_op1 else (rmregbase16,)
+    return type(mnemonic + "_ins", bases, members)
 
 
 def make_rm_reg8(mnemonic, opcode, read_op1=True, write_op1=True):
@@ -796,7 +799,8 @@ def make_rm_reg8(mnemonic, opcode, read_op1=True, write_op1=True):
     reg = Operand("reg", Register8, read=True)
     syntax = Syntax([mnemonic, " ", rm, ",", " ", reg], priority=0)
     members = {"syntax": syntax, "rm": rm, "reg": reg, "opcode": opcode}
-    return type(mnemonic + "_ins", (rmregbase64,), members)
+    bases = (ModifiesRm, rmregbase64) if write_op1 else (rmregbase64,)
+    return type(mnemonic + "_ins", bases, members)
 
 
 def make_reg_rm64(mnemonic, opcode, read_op1=True, write_op1=True):
